@@ -106,6 +106,7 @@ Fixpoint run_ops (p : jprog) (st : store) (locks : list tid) (ops : list (cop * 
 Definition chk_seq (c : jprog * store * list tid * list (cop * cobs)) : bool := let '(p, st, locks, ops) := c in run_ops p st locks ops.
 '''
 CASE_TYPE = 'jprog * store * list tid * list (cop * cobs)'
+DEEP_SLACK = 170                       # Python frames left to jug on programs with long dependency chains (~4 per link)
 OPS = ('load', 'phase', 'execute', 'cleanup', 'cleanup_keep')
 OP_COQ = {'load': 'OLoad', 'phase': 'OPhase', 'execute': 'OExecute', 'cleanup': 'OCleanup', 'cleanup_keep': 'OCleanupKeep'}
 
@@ -138,40 +139,42 @@ class Env:
         return r
 
 
-def real_phase(sc, store):
+def real_phase(sc, store, slack=None):
     """jug.init + execution_loop once (what one iteration of ExecuteCommand's loop does)"""
     from jug.hooks.register import reset_all_hooks
     from jug.hooks import register_hook
-    r = lg.real_init(sc, store)
+    r = lg.real_init(sc, store, slack=slack)
     executed = []
     register_hook('execute.task-executed1', lambda t: executed.append(lg.hx(t.hash())))
     try:
         with jugrun.quiet(), lg.no_zero_sleep():
             opts = lg.exec_options(sc)
-            jug.jug.execution_loop(list(jug.task.alltasks), opts)
+            with lg.low_recursion(slack):
+                jug.jug.execution_loop(list(jug.task.alltasks), opts)
     finally:
         reset_all_hooks()
     return r, executed
 
 
-def real_execute_hooked(sc, target, via_main):
+def real_execute_hooked(sc, target, via_main, slack=None):
     from jug.hooks import register_hook
     executed = []
     register_hook('execute.task-executed1', lambda t: executed.append(lg.hx(t.hash())))
-    code, mlog, out = lg.real_execute(sc, target, via_main=via_main)      # resets the hooks at the end
+    code, mlog, out = lg.real_execute(sc, target, via_main=via_main, slack=slack)      # resets the hooks at the end
     return code, mlog, out, executed
 
 
-def real_cleanup(sc, store, keep_locks=False):
+def real_cleanup(sc, store, keep_locks=False, slack=None):
     from jug.subcommands import cmdapi
-    r = lg.real_init(sc, store)
+    r = lg.real_init(sc, store, slack=slack)
     opts = jug.options.parse(['cleanup', sc.jugfile, '--jugdir', 'dict_store'] + (['--keep-locks'] if keep_locks else []))
     with jugrun.quiet():
-        cmdapi.run('cleanup', options=opts, store=r['store'], jugspace=r['space'])
+        with lg.low_recursion(slack):
+            cmdapi.run('cleanup', options=opts, store=r['store'], jugspace=r['space'])
     return r
 
 
-def real_status(sc, target):
+def real_status(sc, target, slack=None):
     """`jug status --short` -> (complete, not complete)"""
     import re
     from jug.subcommands.status import status as status_cmd
@@ -183,7 +186,8 @@ def real_status(sc, target):
     path = list(sys.path)
     try:
         with jugrun.quiet() as (out, err):
-            n = status_cmd.run(options=opts)
+            with lg.low_recursion(slack):
+                n = status_cmd.run(options=opts)
     finally:
         jug.task.Task.store = old
         sys.path[:] = path
@@ -199,8 +203,8 @@ def real_status(sc, target):
 
 
 class SeqRun:
-    def __init__(self, ck, sc, name, prog, it, term, log, scope, bmarks):
-        self.ck, self.sc, self.name, self.prog = ck, sc, name, prog
+    def __init__(self, ck, sc, name, prog, it, term, log, scope, bmarks, slack=None):
+        self.ck, self.sc, self.name, self.prog, self.slack = ck, sc, name, prog, slack
         self.it, self.term, self.log, self.scope = it, term, log, scope
         self.bmarks = dict((n, it.hash_of_desc[d]) for n, d in bmarks.items())
         self.R = []
@@ -211,10 +215,15 @@ class SeqRun:
                 seen.add(h)
                 self.R.append((h, v))
         self.comp_hashes = [it.hash_of_desc[d] for d, _ in log if d[1].startswith('comp')]
+        self.large = len(self.R) > 40
 
     def viol(self, what, **kw):
-        self.ck.violation(dict({'kind': 'impl-violation', 'what': what, 'program': self.name, 'prog': self.prog,
-                                'jugfile': lg.render_python(self.prog)}, **kw))
+        self.ck.violation(dict(dict({'kind': 'impl-violation', 'what': what, 'program': self.name}, **self.prog_fields()), **kw))
+
+    def prog_fields(self):
+        if self.large:
+            return {'prog_flat': lg.flatten(self.prog), 'jugfile': lg.render_python(self.prog)[len(lg.PRELUDE):], 'slack': self.slack}
+        return {'prog': self.prog, 'jugfile': lg.render_python(self.prog), 'slack': self.slack}
 
     def builder_oracle(self, marks, before, ctx):
         for (n, kind, _) in marks:
@@ -255,25 +264,25 @@ class SeqRun:
             tasks, hb, executed = [], False, []
             try:
                 if op == 'load':
-                    r = lg.real_init(self.sc, s)
+                    r = lg.real_init(self.sc, s, slack=self.slack)
                     tasks, hb = r['tasks'], r['hasbarrier']
                     self.builder_oracle(r['marks'], before, ctx)
                 elif op == 'phase':
-                    r, executed = real_phase(self.sc, s)
+                    r, executed = real_phase(self.sc, s, self.slack)
                     tasks, hb = r['tasks'], r['hasbarrier']
                     self.builder_oracle(r['marks'], before, ctx)
                 elif op == 'execute':
                     via_main = backend == 'file' and (ck.dist.get('step: execute (file)', 0) % 2 == 0)
                     if backend == 'file':
                         s.close()
-                    code, mlog, out, executed = real_execute_hooked(self.sc, env.jd if backend == 'file' else s, via_main)
+                    code, mlog, out, executed = real_execute_hooked(self.sc, env.jd if backend == 'file' else s, via_main, self.slack)
                     if code != 0:
                         self.viol('jug execute exited with an error', code=code, output=out[-500:], **ctx)
                         return None
                     if backend == 'file':
                         s = env.open()
                 elif op in ('cleanup', 'cleanup_keep'):
-                    r = real_cleanup(self.sc, s, keep_locks=(op == 'cleanup_keep'))
+                    r = real_cleanup(self.sc, s, keep_locks=(op == 'cleanup_keep'), slack=self.slack)
                     tasks, hb = r['tasks'], r['hasbarrier']
                     self.builder_oracle(r['marks'], before, ctx)
             except SystemExit:
@@ -293,7 +302,7 @@ class SeqRun:
             if op == 'load':
                 nc = sum(1 for h in tasks if h in after)
                 ni = len(tasks) - nc
-                sc_, si_, ret = real_status(self.sc, env.jd if backend == 'file' else env.dstore)
+                sc_, si_, ret = real_status(self.sc, env.jd if backend == 'file' else env.dstore, self.slack)
                 if (sc_, si_) != (nc, ni) or ret != nc:
                     self.viol('jug status counts differ from the loaded tasks with / without a result',
                               status=[sc_, si_, ret], loaded=[nc, ni], **ctx)
@@ -314,11 +323,11 @@ class SeqRun:
                 keep = set(tasks)
                 bad = [h for h in before if h in keep and after.get(h) != before[h]] + [h for h in after if h not in keep]
                 if bad:
-                    self.viol('cleanup removed the result of a loaded task or kept a key no loaded task has', keys=sorted(bad), **ctx)
+                    self.viol('cleanup removed the result of a loaded task or kept a key no loaded task has', keys=sorted(bad)[:40], **ctx)
                 s2 = env.open()
-                r2 = lg.real_init(self.sc, s2)
+                r2 = lg.real_init(self.sc, s2, slack=self.slack)
                 if r2['tasks'] != tasks or r2['hasbarrier'] != hb:
-                    self.viol('after cleanup the jugfile loads differently', before_cleanup=tasks, after_cleanup=r2['tasks'], **ctx)
+                    self.viol('after cleanup the jugfile loads differently', before_cleanup=tasks[:60], after_cleanup=r2['tasks'][:60], **ctx)
                 if backend == 'file':
                     s2.close()
             if op == 'execute':
@@ -329,11 +338,11 @@ class SeqRun:
                           [h for h in top if h not in after] + [h for h in before if h not in after]
                     if bad:
                         self.viol('after jug execute a compound (or another task) is missing or has a value different from '
-                                  'the plain evaluation of its builder', keys=sorted(set(bad)), expected=sorted(exp.items()),
-                                  observed=sorted(after.items()), **ctx)
+                                  'the plain evaluation of its builder', keys=sorted(set(bad))[:40], expected=sorted(exp.items())[:60],
+                                  observed=sorted(after.items())[:60], **ctx)
                 # a second execute must run nothing
                 s2 = env.jd if backend == 'file' else env.dstore
-                code, mlog, out, ex2 = real_execute_hooked(self.sc, s2, False)
+                code, mlog, out, ex2 = real_execute_hooked(self.sc, s2, False, self.slack)
                 again = env.items()
                 if ex2 or again != after or code != 0:
                     self.viol('a second jug execute executed tasks or changed the store', executed=ex2, **ctx)
@@ -449,14 +458,22 @@ def run(ck):
                 if not any(d[1].startswith('comp') for d, _ in log):
                     continue
                 progs.append(('gen%d' % tries, prog))
-            for name, prog in progs:
+            progs = [(n, p, None) for n, p in progs]
+            for i in range(ck.n(5, 30)):
+                # builders called on the end of a long dependency chain nothing has hashed yet, a chain (and a barrier)
+                # inside the builder; loaded / run / cleaned with ~170 Python frames left (loadergen.Deep; defect D21)
+                progs.append(('deep%d' % i, lg.generate_deep(rng, first='compound', rounds=rng.choice([1, 2]), max_tasks=300), DEEP_SLACK))
+            for name, prog, slack in progs:
                 it = lg.Interner(prog)
                 term = lg.render_coq(prog, it)
                 log, scope, nb, _ = lg.seq_oracle(prog)
-                sr = SeqRun(ck, sc, name, prog, it, term, log, scope, lg.builder_marks(prog))
+                sr = SeqRun(ck, sc, name, prog, it, term, log, scope, lg.builder_marks(prog), slack=slack)
                 sc.write(prog)
                 states = start_states(sr, rng)
-                chosen = states if name in dict(CORPUS) else ([states[0]] + rng.sample(states[1:], nseq - 1))
+                if sr.large:
+                    chosen = [states[0]] + rng.sample(states[1:], 2)
+                else:
+                    chosen = states if name in dict(CORPUS) else ([states[0]] + rng.sample(states[1:], nseq - 1))
                 for j, (sname, start) in enumerate(chosen):
                     start = list(start)
                     if start and rng.random() < 0.12:
@@ -466,7 +483,7 @@ def run(ck):
                     if rng.random() < 0.08:
                         start.append((JUNK, rng.randrange(lg.M)))
                         ck.count('start: with a key no task has')
-                    backend = 'file' if (len(cases) % 5 == 3) else 'dict'
+                    backend = 'file' if (len(cases) % 5 == 3 and not sr.large) else 'dict'
                     lname, held, failed = lock_state(sr, start, rng)
                     res = sr.run(start, gen_ops(rng), backend, root, held, failed)
                     ck.count('start: %s' % sname)
@@ -480,12 +497,14 @@ def run(ck):
                     metas.append((sr, meta))
                     nsteps += k
                 ck.count('programs')
+                if sr.large:
+                    ck.count('programs with long dependency chains (low recursion limit)')
                 ck.count('programs with %d compound(s) on the sequential path' % min(len(sr.comp_hashes), 4))
                 if any(isinstance(v, tuple) for d, v in log if d[1].startswith('comp')):
                     ck.count('programs with a tuple-valued compound')
                 if nb:
                     ck.count('programs with barrier/bvalue')
-                if len(ck.samples) < 4 and len(sr.comp_hashes) >= 2:
+                if len(ck.samples) < 4 and len(sr.comp_hashes) >= 2 and not sr.large:
                     ck.sample({'jugfile': lg.render_python(prog)[len(lg.PRELUDE):], 'sequential_values': [[repr(d), v] for d, v in log],
                                'sequence': metas[-1][1]})
             jugrun.fresh()
@@ -495,20 +514,25 @@ def run(ck):
                 os.environ.pop('HOME', None)
             else:
                 os.environ['HOME'] = home
-    fails = ck.cases('seq', lg.COQ_IMPORTS, CASE_TYPE, 'chk_seq', cases, shard=24, preamble=PREAMBLE)
-    for i in (fails or []):
+    small = [i for i, (sr, _) in enumerate(metas) if not sr.large]
+    big = [i for i, (sr, _) in enumerate(metas) if sr.large]
+    f1 = ck.cases('seq', lg.COQ_IMPORTS, CASE_TYPE, 'chk_seq', [cases[i] for i in small], shard=24, preamble=PREAMBLE)
+    f2 = ck.cases('seq_long', lg.COQ_IMPORTS, CASE_TYPE, 'chk_seq', [cases[i] for i in big], shard=2, preamble=PREAMBLE) if big else []
+    fails = sorted([small[j] for j in (f1 or [])] + [big[j] for j in (f2 or [])])
+    for i in fails:
         sr, meta = metas[i]
-        ck.violation({'kind': 'correspondence', 'what': 'compound: model and jug disagree on a load/execute/cleanup sequence',
-                      'program': sr.name, 'prog': sr.prog, 'jugfile': lg.render_python(sr.prog), 'interning': sr.it.table(),
-                      'start': meta['start'], 'backend': meta['backend'], 'ops': meta['ops'], 'steps': meta['steps'],
-                      'held': meta['held'], 'failed': meta['failed'],
-                      'coq_case': cases[i]})
+        o = dict({'kind': 'correspondence', 'what': 'compound: model and jug disagree on a load/execute/cleanup sequence',
+                  'program': sr.name, 'start': meta['start'], 'backend': meta['backend'], 'ops': meta['ops'],
+                  'held': meta['held'], 'failed': meta['failed']}, **sr.prog_fields())
+        if not sr.large:
+            o.update({'interning': sr.it.table(), 'steps': meta['steps'], 'coq_case': cases[i]})
+        ck.violation(o)
     ck.case_total = nsteps
 
 
 # ---------------------------------------------------------------------------- replay
 def replay(obj):
-    prog = obj['prog']
+    prog = obj['prog'] if obj.get('prog') else lg.unflatten(obj['prog_flat'])
     rc = 0
     with jugrun.scratch_dir('jugv_c18r_') as root:
         home = os.environ.get('HOME')
@@ -519,10 +543,14 @@ def replay(obj):
             it = lg.Interner(prog)
             term = lg.render_coq(prog, it)
             log, scope, nb, _ = lg.seq_oracle(prog)
-            sr = SeqRun(ck, sc, obj.get('program', 'replay'), prog, it, term, log, scope, lg.builder_marks(prog))
+            sr = SeqRun(ck, sc, obj.get('program', 'replay'), prog, it, term, log, scope, lg.builder_marks(prog), slack=obj.get('slack'))
             sc.write(prog)
-            print(lg.render_python(prog)[len(lg.PRELUDE):])
-            print('sequential values:', [(it.desc_id(d), v) for d, v in log])
+            if sr.large:
+                print('(long program: %d statements, %d results on the sequential path; recursion slack %s)'
+                      % (lg.nstatements(prog), len(sr.R), sr.slack))
+            else:
+                print(lg.render_python(prog)[len(lg.PRELUDE):])
+                print('sequential values:', [(it.desc_id(d), v) for d, v in log])
             start = [(h, tuplify(v)) for h, v in obj.get('start', [])]
             res = sr.run(start, obj.get('ops', ['load', 'execute', 'load', 'cleanup', 'load']), obj.get('backend', 'dict'), root,
                          obj.get('held', []), obj.get('failed', []))
@@ -530,6 +558,9 @@ def replay(obj):
                 print('locks of others: held', [it.hash_id(h) for h in obj.get('held', [])], 'failed', [it.hash_id(h) for h in obj.get('failed', [])])
             if res is not None:
                 for st in res[1]['steps']:
+                    if sr.large:
+                        print(' %-8s %d tasks hasbarrier %s executed %d store %d' % (st['op'], len(st['tasks']), st['hasbarrier'], len(st['executed']), len(st['store_after'])))
+                        continue
                     print(' %-8s tasks %s hasbarrier %s executed %s store %s' % (
                         st['op'], [it.hash_id(h) for h in st['tasks']], st['hasbarrier'], [it.hash_id(h) for h in st['executed']],
                         [(it.hash_id(h), v) for h, v in st['store_after']]))
